@@ -320,8 +320,15 @@ func qrAlgorithm(inSitu *InSitu, epsilon float64) (Matrix, Matrix, error) {
 
   // number of steps for which the active block did not change
   stalled, p0, q0 := 0, -1, -1
+  // the limit is only reached when intermediate results leave the
+  // floating-point range (NaN, overflow, underflow)
+  maxSteps := 100*(n+1)
   // apply Francis QR steps
-  for p, q := 0, 0; q < n-1; {
+  for p, q, step := 0, 0, 0; q < n-1; step++ {
+
+    if step > maxSteps {
+      return nil, nil, fmt.Errorf("QR algorithm did not converge within %d steps", maxSteps)
+    }
 
     for i := 0; i < n-1; i++ {
       h11 := h.ConstAt(i  ,i  ).GetFloat64()
@@ -359,7 +366,10 @@ func qrAlgorithm(inSitu *InSitu, epsilon float64) (Matrix, Matrix, error) {
       continue
     }
     // run QR steps until convergence
-    for {
+    for step := 0; ; step++ {
+      if step > maxSteps {
+        return nil, nil, fmt.Errorf("QR algorithm did not converge within %d steps", maxSteps)
+      }
       h11 := h.ConstAt(i  ,i  ).GetFloat64()
       h21 := h.ConstAt(i+1,i  ).GetFloat64()
       h22 := h.ConstAt(i+1,i+1).GetFloat64()
